@@ -1,8 +1,11 @@
 #!/bin/bash
 # Re-validates every kept seeded change against the current /repo HEAD and the current checks:
 # applies seeded/<name>/patch.diff in a scratch worktree, runs the checks listed in meta.json (caught_by),
-# prints one line per seed. Scratch worktrees live under /tmp and are removed.
+# prints one line per seed. Scratch worktrees live under /tmp and are removed. Uses its own scratch name (the committed
+# evidence is not touched); can run from a snapshot (vp run -- tools/seedmatrix.sh seedmatrix.log).
 cd "$(dirname "$0")/.."
+[ -x .build/bin/gencatalog ] || ./setup.sh > /dev/null 2>&1
+mkdir -p .work
 out=${1:-.work/seedmatrix.log}
 : > "$out"
 for d in seeded/*/; do
@@ -20,12 +23,13 @@ for d in seeded/*/; do
   line="$name ::"
   [ -z "$checks" ] && line="$line (kept as not breaking the property; no check expected to fire)"
   for c in $checks; do
-    VERIF_REPO=$wt timeout 1500 ./check $c quick > .work/sm-$name-$c.out 2>&1; rc=$?
+    mkdir -p .work
+    VERIF_REPO=$wt VERIF_SCRATCH=sm timeout 1500 ./check $c quick > .work/sm-$name-$c.out 2>&1; rc=$?
     sig=$(grep -m1 -o 'sig=[^ ]*' .work/sm-$name-$c.out)
     line="$line $c rc=$rc $sig;"
   done
   echo "$line" | tee -a "$out"
   git -C /repo worktree remove --force "$wt"
-  rm -f .build/bin/*.????????* .build/go.*.mod .build/go.*.sum .build/catalog-????????-* .build/overlay-????????-* .work/sm-$name-*.out
+  rm -f .work/sm-$name-*.out
 done
 git -C /repo worktree prune
